@@ -14,16 +14,24 @@ from sim.runner import Check
 from sim.streams import SimFile, SimSource
 
 
+UNKNOWN_NAMES = ('vpc', 'qcow', 'QCOW2', 'Raw', 'ami', 'ploop', ' vhd')
+
+
 def gen_allowed(rng):
     c = rng.random()
     if c < 0.45:
         return None
-    if c < 0.6:
+    if c < 0.52:
+        # names that are not formats at all (alone: nothing may be considered)
+        return sorted(rng.sample(UNKNOWN_NAMES, rng.randint(1, 2)))
+    if c < 0.62:
         return [rng.choice(F.FORMATS)]
     k = rng.randint(2, 6)
     sub = rng.sample(list(F.FORMATS), k)
     if rng.random() < 0.5 and 'raw' not in sub:
         sub.append('raw')
+    if rng.random() < 0.15:
+        sub.append(rng.choice(UNKNOWN_NAMES))
     return sorted(sub)
 
 
@@ -92,6 +100,8 @@ class C03(Check):
                 case['expected'] = xrng.choice(F.FORMATS)
         if via == 'wfile':
             case['ask'] = core.weighted(xrng, imgsim.ASK_MODES)
+        if via == 'witer' and xrng.random() < 0.3:
+            case['forloop'] = True
         if via == 'detect':
             c = srng.random()
             case['short'] = [srng.choice((0, 1, 7, 100, 512, 4095))
@@ -229,6 +239,13 @@ class C03(Check):
                                     case.get('ask'),
                                     plan[idx] if idx < len(plan) else 4096))
                                 done = not chunk
+                            elif case.get('forloop'):
+                                # a for statement that is left after one
+                                # chunk and entered again later
+                                done = True
+                                for chunk in w:
+                                    done = False
+                                    break
                             else:
                                 try:
                                     chunk = next(w)
@@ -265,7 +282,7 @@ class C03(Check):
             if orig is not None:
                 base.eat_chunk = orig
         log.add('run', case['via'], final, finals, samples[-3:], sorted(fed),
-                expected, aborted, case.get('ask'))
+                expected, aborted, case.get('ask'), bool(case.get('forloop')))
         if aborted:
             bump(pr, 'cut_off_by_expected_inspector')
 
@@ -446,7 +463,7 @@ class C03(Check):
             c = copy.deepcopy(case)
             c['short'] = []
             yield c
-        for key in ('expected', 'ask'):
+        for key in ('expected', 'ask', 'forloop'):
             if case.get(key):
                 c = copy.deepcopy(case)
                 c.pop(key)
